@@ -66,13 +66,25 @@ for job in spec["jobs"]:
     prefix = job[3] if len(job) > 3 else spec["dfile_prefix"]
     try:
         kw = {}
-        if mode != "ts":
+        if mode not in ("ts", "dup"):
             from py_compile import PycInvalidationMode as M
             kw["invalidation_mode"] = M.CHECKED_HASH if mode == "ch" else M.UNCHECKED_HASH
         elif sys.version_info >= (3, 7):
             from py_compile import PycInvalidationMode as M
             kw["invalidation_mode"] = M.TIMESTAMP
-        py_compile.compile(src, cfile=dst, dfile=prefix + os.path.basename(src), doraise=True, **kw)
+        if mode == "dup":
+            # a file no compiler emits but a bytecode rewriter can: every nested code constant appears twice, as
+            # two distinct but equal objects
+            import marshal, struct, types
+            with open(src, "rb") as f:
+                co = compile(f.read(), prefix + os.path.basename(src), "exec", dont_inherit=True)
+            extra = tuple(c.replace() for c in co.co_consts if isinstance(c, types.CodeType))
+            co2 = co.replace(co_consts=co.co_consts + extra)
+            import importlib.util
+            with open(dst, "wb") as f:
+                f.write(importlib.util.MAGIC_NUMBER + struct.pack("<III", 0, 1700000000, 0) + marshal.dumps(co2))
+        else:
+            py_compile.compile(src, cfile=dst, dfile=prefix + os.path.basename(src), doraise=True, **kw)
         res.append(dst)
     except Exception:
         pass
@@ -172,6 +184,9 @@ def produce_corpus(seed, n_xdis, n_stdlib, only_tags=None, outdir=None, workers=
                 stem = "%03d_%s" % (k, os.path.basename(src)[:-3])
                 dst = os.path.join(tdir, "%s.%s.pyc" % (stem, mode))
                 jobs.append([src, dst, mode])
+            if k % 5 == 2 and vt >= (3, 8):
+                stem = "%03d_%s" % (k, os.path.basename(src)[:-3])
+                jobs.append([src, os.path.join(tdir, "%s.dup.pyc" % stem), "dup"])
             if k % 4 == 1:
                 # the same program stored under another source path: value-equal code, different co_filename
                 stem = "%03d_%s" % (k, os.path.basename(src)[:-3])
